@@ -182,6 +182,15 @@ def Table.clone (t : Table) : Table :=
 def Table.mergekv (h : Nat → Nat) (t : Table) (kvs : List Slot) : Table :=
   kvs.foldl (fun t kv => match kv.key with | some k => t.putKey h k kv.val | none => t) t
 
+/-- boot.janet `merge`: `(def container @{}) (loop [c :in colls key :keys c] (put container key (in c key))) container`
+(the shape is asserted by the translator); `colls` = the bucket arrays of the arguments -/
+def mergeNew (h : Nat → Nat) (colls : List (List Slot)) : Table :=
+  colls.foldl (fun t kvs => t.mergekv h kvs) (Table.init 0)
+
+/-- boot.janet `zipcoll` / `from-pairs` / `tabseq`: a fresh `@{}` filled by `put` -/
+def fromPuts (h : Nat → Nat) (kvs : List (KArg × Val)) : Table :=
+  kvs.foldl (fun t kv => t.put h kv.1 kv.2) (Table.init 0)
+
 /-- prototype walk of `janet_table_get`: `for (i = JANET_MAX_PROTO_DEPTH; t && i; t = t->proto, --i)`.
 `heap` resolves a table reference. -/
 def getChain (h : Nat → Nat) (heap : Nat → Option Table) (k : Nat) : Nat → Option Nat → Val
